@@ -46,7 +46,7 @@ REAL_VS_STUB = {
 }
 PROBES = ["shortcut_taken", "rescan_forced_by_other_handle", "rescan_after_failed_put", "flush_by_bufsize_threshold", "key_255", "key_256_rejected",
           "direct_raw_write", "dup_rejected", "readonly_write_rejected", "closed_handle_rejected", "clone_used", "queued_key_read_in_session",
-          "deferred_failure_at_session_end", "history_len_le_6"]
+          "deferred_failure_at_session_end", "history_len_le_6", "badvalue_rejected", "read_after_deferred_dup"]
 
 
 def budget(tier):
@@ -158,6 +158,9 @@ def gen_plan(r, tier, index):
                 continue
             state["tag"] += 1
             cc = r.random()
+            if r.random() < 0.06:
+                ops.append({"op": "put_badvalue", "h": h, "k": f"bad{state['tag']}", "kind": r.choice(["str", "empty_str", "none", "int", "list"])})
+                continue
             if cc < 0.07:
                 k = [f"OV{state['tag']}_", 256]
             elif cc < 0.2 and state["model"]:
@@ -404,6 +407,27 @@ def run_plan(plan, trace=False):
                         stale_or_fail[0] = True
                     check_view(h, "put-readonly")
                     outcome_seq.append(("put_readonly",))
+                elif o == "put_badvalue":
+                    if not h["open"] or h["mode"] != "a":
+                        continue
+                    if h["type"] == "coll" and h["cb"] > 0:
+                        continue  # a deferring buffer queues the value unseen; the failure would surface at the flush (see put)
+                    kb = key_bytes(op["k"])
+                    bad = {"str": "text value", "empty_str": "", "none": None, "int": 7, "list": [1, 2]}[op["kind"]]
+                    try:
+                        if h["type"] == "ukv":
+                            h["obj"].put(kb, bad)
+                        else:
+                            h["obj"][kb.decode("latin-1")] = bad
+                        viol("non-bytes-value-accepted", "put-badvalue", h, f"put({short(kb)}, {bad!r}) did not raise")
+                    except _Stop:
+                        raise
+                    except Exception:  # noqa: BLE001 - any exception is a refusal
+                        res.stats["probe:badvalue_rejected"] += 1
+                        stale_or_fail[0] = True
+                    # a failing operation leaves the handle's view unchanged; the file is judged at the next close
+                    check_view(h, "put-badvalue", full=True)
+                    outcome_seq.append(("put_badvalue", op["kind"]))
                 elif o == "put":
                     if not h["open"] or h["mode"] != "a":
                         continue
@@ -451,12 +475,27 @@ def run_plan(plan, trace=False):
                                 # legitimately deferred: the failure must surface at the flush (session end)
                                 h.setdefault("pending_dups" if should_fail == "dup" else "pending_oversize", []).append(kb)
                                 outcome_seq.append(("put", "deferred-" + should_fail))
+                                surfaced = False
+                                if should_fail == "dup":
+                                    # get(k) must still return the bytes of the one SUCCESSFUL put (or let the deferred
+                                    # failure surface here) - never the refused value
+                                    try:
+                                        g = getter(h, kb)
+                                    except KeyError:
+                                        surfaced = True
+                                        res.stats["probe:deferred_failure_at_session_end"] += 1
+                                    else:
+                                        res.stats["probe:read_after_deferred_dup"] += 1
+                                        if g != model[kb]:
+                                            viol("get-returns-wrong-bytes", "get-after-deferred-dup", h,
+                                                 f"get({short(kb)}) = {short(g)} after a refused duplicate put; the stored value is {short(model[kb])}")
                                 # the rest of this session's puts have undefined status once the flush fails: end it now
                                 try:
                                     h["open"] = False
                                     h["cm"].__exit__(None, None, None)
-                                    viol(f"{should_fail}-key-put-never-failed", "put-" + should_fail, h,
-                                         f"put({short(kb)}) and the session end both succeeded")
+                                    if not surfaced:
+                                        viol(f"{should_fail}-key-put-never-failed", "put-" + should_fail, h,
+                                             f"put({short(kb)}) and the session end both succeeded")
                                 except _Stop:
                                     raise
                                 except Exception:  # noqa: BLE001
@@ -568,7 +607,9 @@ def run_plan(plan, trace=False):
         res.stats["ev:" + k] += kern.counters[k]
     if stale_or_fail[0]:
         res.keys.append(digest(outcome_seq) + cfgname(H[0]) + str(len(H)))
-    res.digest = digest((outcome_seq, kern.seq, sorted(model), [(v["signature"], v["detail"]) for v in res.violations]))
+    # (the number of kernel events is not part of the digest: Collection.items() walks a set of str keys, so the
+    #  order - and with it the count - of raw reads is a function of the interpreter's string hashing, not of the plan)
+    res.digest = digest((outcome_seq, sorted(model), [(v["signature"], v["detail"]) for v in res.violations]))
     res.sample = {"handles": [cfgname(h) for h in H], "bufsize": plan["bufsize"],
                   "ops": [(o["op"], o["h"]) + ((short(key_bytes(o["k"]), 12),) if "k" in o else ()) for o in plan["ops"]][:25]}
     if trace:
